@@ -152,7 +152,7 @@ func msgLens(full bool, r *rand.Rand) []int {
 	if full {
 		ls = append(ls, 511, 512, 513, 1024, 4095, 4096, 4097)
 	} else {
-		ls = append(ls, 512+16*r.Intn(8), 4096)
+		ls = append(ls, 512+16*r.Intn(8), 512, 768, 1023, 1024, 4096)
 	}
 	return ls
 }
@@ -293,12 +293,21 @@ func main() {
 		w.Emit(e)
 	}
 
+	var arena []byte
 	for ci, c := range cfgs {
 		key := vt.Bytes(r, c.KeyLen)
 		if ci%5 == 1 {
 			key = make([]byte, c.KeyLen) // all-zero key
 		}
-		m, err := build(c, key)
+		// Tink gets its own copy of the key inside a larger buffer; the copy is overwritten once the
+		// primitive exists (a primitive that kept the caller's slice now computes with another key).
+		keyBuf := make([]byte, len(key)+8)
+		keyIn := keyBuf[4 : 4+len(key) : 4+len(key)]
+		copy(keyIn, key)
+		m, err := build(c, keyIn)
+		for i := range keyBuf {
+			keyBuf[i] = 0xA5
+		}
 		if err != nil {
 			e := c.ev("construct")
 			e["keyLen"] = c.KeyLen
@@ -306,6 +315,10 @@ func main() {
 			w.Emit(e)
 			continue
 		}
+		type kept struct {
+			msg, at, ret []byte
+		}
+		var retained []kept
 		lens := msgLens(full, r)
 		if !full && c.Alg == "HMAC" && ci%4 != 0 {
 			// quick: rotate the length set over configurations
@@ -321,15 +334,31 @@ func main() {
 			msg := content(r, n, li+ci)
 			var tag, tag2 []byte
 			var err1, err2 error
+			// the message lives in a reused arena with spare capacity; logged values come from msg (pristine)
+			if cap(arena) < n+16 {
+				arena = make([]byte, 0, 2*n+64)
+			}
+			in := arena[:n]
+			copy(in, msg)
+			var tagRet []byte
 			p, pv := vt.Try(func() {
-				tag, err1 = m.ComputeMAC(msg)
-				tag2, err2 = m.ComputeMAC(msg)
+				tagRet, err1 = m.ComputeMAC(in)
+				tag = append([]byte{}, tagRet...)
+				tag2, err2 = m.ComputeMAC(in)
 			})
+			intact := string(in) == string(msg)
+			for i := range arena[:cap(arena)] {
+				arena[:cap(arena)][i] = 0x5A
+			}
+			if err1 == nil && !p && len(retained) < 4 {
+				retained = append(retained, kept{msg, tag, tagRet})
+			}
 			e := c.ev("compute")
 			e["key"], e["msg"] = vt.Hex(key), vt.Hex(msg)
 			e["out"], e["out2"] = vt.Hex(tag), vt.Hex(tag2)
 			e["err"] = err1 != nil || err2 != nil
 			e["panic"] = p
+			e["inIntact"] = intact
 			if p {
 				e["panicVal"] = fmt.Sprint(pv)
 			}
@@ -390,6 +419,19 @@ func main() {
 					verify("addprefix", append([]byte{1, 0, 0, 0, 0}, tag...), msg)
 				}
 			}
+		}
+		// end of this primitive's life: tags returned earlier must not have been changed by later calls, and
+		// the earliest computations repeated now must give the same tag (determinism across the history)
+		for _, k := range retained {
+			var again []byte
+			var aerr error
+			p, _ := vt.Try(func() { again, aerr = m.ComputeMAC(append([]byte{}, k.msg...)) })
+			e := c.ev("compute")
+			e["kind"] = "retained+repeat"
+			e["key"], e["msg"] = vt.Hex(key), vt.Hex(k.msg)
+			e["out"], e["out2"] = vt.Hex(k.ret), vt.Hex(again) // retained slice as it is NOW, and a fresh recomputation
+			e["err"], e["panic"], e["inIntact"] = aerr != nil, p, true
+			w.Emit(e)
 		}
 	}
 	fmt.Printf("events=%d configs=%d\n", w.Count(), len(cfgs))
